@@ -68,8 +68,9 @@ func makeURLKey(u *url.URL) string {
 	if port == "" {
 		port = defaultP
 	}
-	// RFC 3986 §6.2.2.1: Host is lowercased.
-	hostPort := strings.ToLower(host)
+	// RFC 3986 §6.2.2.1: Host is lowercased (ASCII letters only, so that
+	// distinct non-ASCII hosts never share a key).
+	hostPort := asciiLower(host)
 	if strings.Contains(hostPort, ":") {
 		// IPv6 literal: keep the brackets, otherwise "[::1]:8080" and
 		// "[::1:8080]" would share a key.
